@@ -1024,10 +1024,16 @@ func (e *Exec) feeOf(t *TxSpec) sdk.Coins {
 	if !ok || a.IsNegative() {
 		a = sdk.NewInt(2000)
 	}
-	if a.IsZero() {
-		return sdk.Coins{}
+	out := sdk.Coins{}
+	if !a.IsZero() {
+		out = sdk.Coins{sdk.Coin{Denom: den, Amount: a}}
 	}
-	return sdk.Coins{sdk.Coin{Denom: den, Amount: a}}
+	if t.Fee2Den != "" && t.Fee2Den != den {
+		if b, ok := sdk.NewIntFromString(t.Fee2Amt); ok && b.IsPositive() {
+			out = out.Add(sdk.Coin{Denom: t.Fee2Den, Amount: b})
+		}
+	}
+	return out
 }
 
 func (e *Exec) deliverOnR0(p *pendingTx, blk *Block, rec *BlockRec) {
@@ -1520,6 +1526,32 @@ func (e *Exec) checkCoins(id int, desc string, bt *BuiltTx, pred *prediction, pr
 		return
 	}
 	d := diffSnap(pre.Bal, post.Bal)
+	// the ante handler ran to completion iff the payer's sequence advanced: then exactly the declared fee moves
+	antePassed := false
+	if pred.Payer != nil {
+		if a := n.App.AccountKeeper.GetAccount(ctx, pred.Payer); a != nil && a.GetSequence() != preSeq {
+			antePassed = true
+		}
+	}
+	if antePassed {
+		fc := n.App.AccountKeeper.GetModuleAddress("fee_collector").String()
+		for _, c := range bt.Fee {
+			for _, who := range []string{pred.Payer.String(), fc} {
+				k := who + "|" + c.Denom
+				b, _ := sdk.NewIntFromString(orZero(pre.Bal[k]))
+				a, _ := sdk.NewIntFromString(orZero(post.Bal[k]))
+				delta := a.Sub(b)
+				want := c.Amount
+				if who != fc {
+					want = c.Amount.Neg()
+				}
+				if !delta.Equal(want) {
+					e.viol("C15", "coins.fee_not_moved", ent, "custom-only tx %s declared the fee %s; balance %s changed by %s instead of %s", desc, bt.Fee, k, delta, want)
+					return
+				}
+			}
+		}
+	}
 	if len(d) == 0 {
 		return
 	}
